@@ -838,9 +838,21 @@ func c06Expected(c *kit.Corpus, g *c06Group, cache map[string]*regexp.Regexp) (*
 			return o, nil
 		}
 	}
+	// The deviating case:auto rules of the known findings are combined with
+	// every reading of the points the document leaves open (above): the
+	// readings agree on what is expected, but a deviation can make them differ
+	// (e.g. a negated bare pattern next to an atom the deviation switches off).
 	alt := func(known string, rd c06Reading) {
-		in := &c06Interp{c: c, res: cache, rd: rd}
-		o.alts = append(o.alts, c06Alt{known, in.expected(g)})
+		for mask := 0; mask < 1<<len(used); mask++ {
+			r := rd
+			for k, d := range used {
+				if mask&(1<<k) != 0 {
+					d.set(&r)
+				}
+			}
+			in := &c06Interp{c: c, res: cache, rd: r}
+			o.alts = append(o.alts, c06Alt{known, in.expected(g)})
+		}
 	}
 	if fl.nonASCIIUpperAuto {
 		alt("C06-case-auto-nonascii-upper", c06Reading{ASCIIUpper: true})
@@ -1639,6 +1651,14 @@ func c06Check(c *c06Case, e *c06Env, s string, cache map[string]*regexp.Regexp) 
 			}
 		}
 		if d.Known == "" {
+			for _, a := range o.alts {
+				set := a.set
+				if topRepo {
+					set = c06Repos(set)
+				}
+				am, ax := c06Diff(set, cmpGot)
+				d.Detail += fmt.Sprintf("; under the reading of %s: missing %q extra %q", a.known, am, ax)
+			}
 			d = classify(d)
 		} else {
 			d.Detail = fmt.Sprintf("query string %q: %s", s, d.Detail)
